@@ -19,7 +19,7 @@ COMBOS = [("euclidean", "dense32"), ("cosine", "csr"), ("manhattan", "dense64"),
           ("hamming", "csr"), ("minkowski", "dense32"), ("true_angular", "dense32"), ("euclidean", "csr"),
           ("bit_hamming", "bits"), ("dot", "dense32"), ("canberra", "denseF"), ("hellinger", "csr"),
           ("braycurtis", "dense32"), ("chebyshev", "csr"), ("dice", "dense32"), ("correlation", "dense32"),
-          ("sqeuclidean", "dense32"), ("jensen_shannon", "dense32"), ("matching", "csr")]
+          ("sqeuclidean", "dense32"), ("jensen_shannon", "dense32"), ("matching", "csr"), ("l2", "csr"), ("l2", "dense32")]
 
 
 def kernel_level(res, rng, n_cases):
